@@ -2,7 +2,7 @@
 checks of C01/C02 (rb, bst), C07 (heap), C08 (map), C12/C13 (dlist, slist) and C15."""
 from .core import *
 
-LIB = ["heap.c", "bintree.c", "rbtree.c", "slist.c", "dlist.c", "map.c", "hash.c", "array.c", "vector.c", "memory.c", "common.c"]
+LIB = ["heap.c", "bintree.c", "rbtree.c", "slist.c", "dlist.c", "map.c", "hash.c", "array.c", "vector.c", "string.c", "memory.c", "common.c"]
 
 
 def big_phase(ctx, whats, tag="big"):
